@@ -21,9 +21,12 @@ def gen_job_replication(rng, allow_gpu=True):
     transfers / fetches of it are still in flight"""
     tasks = [{"nOut": rng.choice([1, 2]), "gpu": False, "params": []}]          # t0: the shared producer
     nb = rng.randint(2, 4)
+    big = rng.random() < 0.06
+    if big:
+        nb = rng.randint(5, 10)        # scale class (re-audit C04 5(iii)): a dataset with 5-10 consumers, on 5 or more hosts
     for _ in range(nb):                                                          # independent sources of different "length"
         tasks.append({"nOut": 1, "gpu": False, "params": []})
-        for _ in range(rng.randint(0, 2)):
+        for _ in range(rng.randint(0, 1 if big else 2)):
             tasks.append({"nOut": 1, "gpu": False, "params": [[len(tasks) - 1, 0]]})
     tails = [i for i in range(1, len(tasks)) if not any([i, 0] in t["params"] for t in tasks)]
     for b in tails:                                                              # consumers of t0 joined with each chain's tail
@@ -32,7 +35,7 @@ def gen_job_replication(rng, allow_gpu=True):
     allds = [[t, k] for t in range(len(tasks)) for k in range(tasks[t]["nOut"])]
     p = rng.choice([0.0, 0.3, 1.0])
     ext = [d for d in allds if rng.random() < p or (d[0] == 0 and rng.random() < 0.7)]
-    return {"tasks": tasks, "ext": ext, "family": "replication"}
+    return {"tasks": tasks, "ext": ext, "family": "replication", "branches": nb}
 
 
 def gen_job_wide(rng):
@@ -62,7 +65,33 @@ def gen_job_wide(rng):
 
 
 def gen_job(rng, maxn=8, allow_gpu=True, wide=0.0):
-    """spec = {"tasks":[{"nOut","gpu","params":[[t,k],...]}], "ext":[[t,k],...]} ; tasks are topologically numbered"""
+    """spec = {"tasks":[{"nOut","gpu","params":[[t,k],...],"nkw","skw","sps"}], "ext":[[t,k],...]} ; tasks are topologically
+    numbered. `params` lists ALL upstream inputs of the task; the last `nkw` of them arrive through KEYWORD edges
+    (Task2TaskEdge.sink_input_kw), the others through positional edges; `skw`/`sps` = number of static keyword / positional
+    inputs of the TaskInstance. For the controller (and for the Lean model's job) a keyword edge is one more input."""
+    spec = _gen_job_base(rng, maxn, allow_gpu, wide)
+    return decorate_job(rng, spec)
+
+
+def decorate_job(rng, spec):
+    """keyword edges and static inputs (audit probe K): in about 70 % of the jobs every task with upstream inputs gets, with
+    probability 1/2, 1..all of its edges turned into keyword edges (so that jobs have tasks fed ONLY by keyword edges, tasks
+    with both kinds, and sources consumed through a keyword edge by one task and positionally by another); tasks get 0-2
+    static keyword and 0-2 static positional inputs"""
+    style = rng.random()
+    for t in spec["tasks"]:
+        t["nkw"] = t["skw"] = t["sps"] = 0
+        if style < 0.3:
+            continue
+        if t["params"] and rng.random() < (0.5 if style < 0.85 else 1.0):
+            t["nkw"] = len(t["params"]) if rng.random() < 0.4 else rng.randint(1, len(t["params"]))
+        if rng.random() < 0.4:
+            t["skw"] = rng.randint(0, 2)
+            t["sps"] = rng.randint(0, 2)
+    return spec
+
+
+def _gen_job_base(rng, maxn=8, allow_gpu=True, wide=0.0):
     if wide and rng.random() < wide:
         return gen_job_wide(rng)
     if maxn >= 6 and rng.random() < 0.3:
@@ -80,11 +109,19 @@ def gen_job(rng, maxn=8, allow_gpu=True, wide=0.0):
     shape = rng.random()
     n = rng.randint(0, maxn) if shape > 0.05 else 0
     tasks = []
+    big = rng.random() < 0.3       # jobs with tasks of 4-6 outputs and 4-8 parameters (audit C03 5(ii))
     for i in range(n):
         nout = rng.choice([1, 1, 1, 2, 3])
+        if big and rng.random() < 0.35:
+            nout = rng.randint(4, 6)
         params = []
         r = rng.random()
-        if i > 0 and r < 0.78:
+        if i > 0 and big and rng.random() < 0.4:
+            # 4-8 parameters; the same dataset may feed several of them
+            for _ in range(rng.randint(4, 8)):
+                src = rng.randrange(i)
+                params.append([src, rng.randrange(tasks[src]["nOut"])])
+        elif i > 0 and r < 0.78:
             for _ in range(rng.randint(1, min(3, i))):
                 src = rng.randrange(i) if rng.random() < 0.6 else i - 1
                 params.append([src, rng.randrange(tasks[src]["nOut"])])
@@ -106,6 +143,8 @@ def gen_cluster(rng, spec, maxh=3, maxw=3):
         # many hosts with one worker each: maximises inter-host transfers; with the replication family the shared dataset
         # ends up on several hosts, so that later transfers of it have a real choice of `available` sources
         H, W = rng.randint(3, max(3, maxh + 1)), 1
+        if spec.get("branches", 0) >= 5:
+            H = rng.randint(5, min(8, spec["branches"] + 1))
     ws = [[h, w, rng.random() < 0.3] for h in range(H) for w in range(W)]
     if any(t["gpu"] for t in spec["tasks"]) and not any(w[2] for w in ws):
         ws[rng.randrange(len(ws))][2] = True
@@ -164,10 +203,18 @@ def build_job(spec):
     for i, t in enumerate(spec["tasks"]):
         _NOUT[i] = t["nOut"]
     for i, t in enumerate(spec["tasks"]):
-        d = TaskDefinition(func="x", environment=[], input_schema={}, output_schema={o: "Any" for o in onames(t["nOut"])}, needs_gpu=t["gpu"])
-        tasks[tname(i)] = TaskInstance(definition=d, static_input_kw={}, static_input_ps={})
+        npos = len(t["params"]) - t.get("nkw", 0)
+        skw = {f"s{q}": f"static-{i}-{q}" for q in range(t.get("skw", 0))}
+        sps = {str(npos + q): q for q in range(t.get("sps", 0))}      # static positions follow the positions fed by edges
+        schema = {f"k{p}": "Any" for p in range(npos, len(t["params"]))}
+        schema.update({k: "str" for k in skw})
+        d = TaskDefinition(func="x", environment=[], input_schema=schema, output_schema={o: "Any" for o in onames(t["nOut"])}, needs_gpu=t["gpu"])
+        tasks[tname(i)] = TaskInstance(definition=d, static_input_kw=skw, static_input_ps=sps)
         for p, src in enumerate(t["params"]):
-            edges.append(Task2TaskEdge(source=dsid(src), sink_task=tname(i), sink_input_kw=None, sink_input_ps=p))
+            if p < npos:
+                edges.append(Task2TaskEdge(source=dsid(src), sink_task=tname(i), sink_input_kw=None, sink_input_ps=p))
+            else:
+                edges.append(Task2TaskEdge(source=dsid(src), sink_task=tname(i), sink_input_kw=f"k{p}", sink_input_ps=None))
     return JobInstance(tasks=tasks, edges=edges, ext_outputs=[dsid(d) for d in spec["ext"]])
 
 
@@ -191,12 +238,34 @@ def seq_eval(spec):
 
 # ----------------------------------------------------------------------------- SimBridge
 
-# C04, literal reading of "never drops it while a transfer it commanded from that host is still unanswered": the controller
-# may purge a source while the bare NOTICE of a transfer from it is undelivered (the transfer itself has been performed and
-# the consumer on the target has completed: Lean c04_queued_purge_io_done / c04_transfer_notice_full_fails). The situation is
-# always counted (`purges_of_a_source_whose_transfer_notice_is_undelivered`); with this switch it is also reported as an
-# oracle failure of kind `purge-before-transfer-notice` (known-finding entry proposed in known/aud0104a.json).
-FLAG_LITERAL_UNANSWERED = False
+# C04 clause (c), "never drops it while a transfer or fetch it commanded from that host is still unanswered". Decision (audit
+# re-look item C04.1): READ LITERALLY - the answer of a transfer is the DatasetPublished(transmit_idx) notice reaching the
+# controller - the clause FAILS on the real controller in exactly one way: the transfer has been performed, the copy is stored at
+# the target, a consumer on the target has completed and its completion reached the controller BEFORE the bare notice of the
+# transfer did; the source is then purged with the notice still on its way (Lean: c04_transfer_notice_full_fails; what IS
+# guaranteed: c04_queued_purge_io_done / c04_purge_io_done; witness corpus/Ctrl_c04_late_transfer_notice.json). It is harmless
+# (nothing reads the source any more) but it is a violation of the text as written, so it is a KNOWN FINDING with the
+# mechanism-specific signature {kind: purge-before-transfer-notice, transfer: performed-and-stored-at-target}
+# (id C04-purge-before-transfer-notice, proposed in known/r2ctrl.json). A purge while a transfer from that host has NOT been
+# performed is a different kind (`purge-while-outstanding-from`, always on), and a pending notice whose copy is not at the target is
+# reported with transfer: not-stored-at-target, which no known finding matches.
+# The literal monitor reports through the oracle as soon as known_findings.json lists the finding (the check cannot list it
+# itself: known_findings.json is the coordinator's); until then the situation is counted
+# (`purges_of_a_source_whose_transfer_notice_is_undelivered`) and its corpus witness must reproduce (ctrl_check).
+LITERAL_FINDING_ID = "C04-purge-before-transfer-notice"
+
+
+def _literal_monitor_on():
+    try:
+        from ekw.core import KNOWN_FILE
+        return any(k.get("id") == LITERAL_FINDING_ID and k.get("status") == "known" for k in json.loads(KNOWN_FILE.read_text()).get("findings", []))
+    except Exception:
+        return False
+
+
+FLAG_LITERAL_UNANSWERED = _literal_monitor_on()
+# monitors of SimBridge that the model's environment does not have (subtracted when the two monitor sets are compared)
+NOT_MODEL_MONITORS = {"C04 purge-before-transfer-notice"}
 
 class WaitWithNothingOutstanding(Exception):
     pass
@@ -400,7 +469,9 @@ class SimBridge:
         if any(e[0] == "pubT" and (e[2], e[3]) == d and e[5] == h for e in self.pending):
             self.note("purges_of_a_source_whose_transfer_notice_is_undelivered")
             if FLAG_LITERAL_UNANSWERED:
-                self.flag("C04 purge-before-transfer-notice", [d, h])
+                stored = all(d in self.present[e[1]] or (e[1], d) in self.purged
+                             for e in self.pending if e[0] == "pubT" and (e[2], e[3]) == d and e[5] == h)
+                self.flag("C04 purge-before-transfer-notice", [d, h, "performed-and-stored-at-target" if stored else "not-stored-at-target"])
         if any(e[0] == "pubT" and (e[2], e[3]) == d and e[1] == h for e in self.pending):
             self.note("purges_of_a_host_still_believed_preparing")
         if any(o[1] == d and o[2] == h for o in self.outstanding):
@@ -487,8 +558,11 @@ class SimBridge:
                 if d not in self.present[tgt]:
                     self.present[tgt][d] = self.present[src][d]
                     self.pending.append(("pubT", tgt, d[0], d[1], idx, src))
-                    if sum(1 for hh in self.hosts if d in self.present[hh]) >= 3:
+                    nh = sum(1 for hh in self.hosts if d in self.present[hh])
+                    if nh >= 3:
                         self.note("datasets_on_3_or_more_hosts")
+                    if nh >= 5:
+                        self.note("datasets_on_5_or_more_hosts")
             else:
                 self.pending.append(("pay", d[0], d[1], self.present[src][d]))
 
@@ -535,7 +609,15 @@ class SimBridge:
 def unfetched(v):
     """the controller's marker for a requested output whose value has not arrived (None on the pinned tree, a placeholder
     object of the scheduler afterwards); a delivered VALUE None is told apart by the caller (it knows which output is None-valued)"""
-    return v is None or type(v).__module__.startswith("cascade.")
+    if v is None:
+        return True
+    # exactly the scheduler's marker (OutputStatus.not_fetched on the repaired tree), not "any object of a cascade type":
+    # a delivered VALUE of some cascade class would otherwise pass for missing
+    try:
+        from cascade.scheduler.core import OutputStatus
+        return isinstance(v, OutputStatus)
+    except ImportError:
+        return type(v).__module__.startswith("cascade.")
 
 
 def _observe(st, spec):
@@ -615,7 +697,87 @@ def canon_model_ctl(m):
 
 # ----------------------------------------------------------------------------- one run of the real controller
 
-def run_case(spec, ws, seed, fifo, none_output=None, max_rounds=None, alarm_s=20, report=False):
+def fingerprint_pre(pre):
+    """canonical, order-free rendering of a Preschedule (edge_i, edge_o, task_o, components with all their tables): what
+    `precompute` returned is an INPUT of run(); run() must leave it as it found it"""
+    import dataclasses
+
+    def canon(x):
+        if dataclasses.is_dataclass(x) and not isinstance(x, type):
+            if getattr(type(x), "__dataclass_params__", None) and type(x).__dataclass_params__.frozen and type(x).__name__ in ("DatasetId", "WorkerId"):
+                return repr(x)
+            return {f.name: canon(getattr(x, f.name)) for f in dataclasses.fields(x)}
+        if hasattr(x, "model_dump") and not isinstance(x, type):
+            return canon({k: getattr(x, k) for k in type(x).model_fields})
+        if isinstance(x, dict):
+            # edge_i / edge_o / task_o are defaultdicts: looking up a task without inputs creates an EMPTY entry, which means
+            # the same as no entry - entries with an empty value are left out on both sides
+            items = [[json.dumps(canon(k), sort_keys=True, default=repr), canon(v)] for k, v in x.items()]
+            return sorted((kv for kv in items if kv[1] not in ([], {})), key=lambda kv: kv[0])
+        if isinstance(x, (set, frozenset)):
+            return sorted(json.dumps(canon(e), sort_keys=True, default=repr) for e in x)
+        if isinstance(x, (list, tuple)):
+            return [canon(e) for e in x]
+        if isinstance(x, (str, int, float, bool)) or x is None:
+            return x
+        return repr(x)
+    return canon(pre)
+
+
+def _fp_diff(a, b, path="Preschedule"):
+    """first place where two fingerprints differ"""
+    if type(a) is not type(b):
+        return f"{path}: {json.dumps(a, default=repr)[:120]} -> {json.dumps(b, default=repr)[:120]}"
+    if isinstance(a, dict):
+        for k in sorted(set(a) | set(b)):
+            if a.get(k) != b.get(k):
+                return _fp_diff(a.get(k), b.get(k), path + "." + str(k))
+    if isinstance(a, list) and len(a) == len(b):
+        for i, (x, y) in enumerate(zip(a, b)):
+            if x != y:
+                return _fp_diff(x, y, f"{path}[{x[0] if isinstance(x, list) and x and isinstance(x[0], str) else i}]")
+    return f"{path}: {json.dumps(a, default=repr)[:120]} -> {json.dumps(b, default=repr)[:120]}"
+
+
+def run_case(spec, ws, seed, fifo, none_output=None, max_rounds=None, alarm_s=20, report=False, prior_seeds=()):
+    """One observed run of the real controller (see _run_once). `prior_seeds`: the real controller is first run to the end
+    once per prior seed - each time with a fresh SimBridge under that schedule seed - on the SAME JobInstance and the SAME
+    Preschedule object (what `precompute` returned), and only then the observed run happens, again on the same two objects:
+    a Preschedule is an input of run(), so the observed run must correspond to the model started from `init` exactly like a
+    first run. The Preschedule is fingerprinted before the first and after every run (`pre_mutated`)."""
+    from cascade.scheduler.graph import precompute
+    try:
+        job = build_job(spec)
+        pre = precompute(job)
+        fp0 = fingerprint_pre(pre)
+    except Exception:
+        return _run_once(spec, ws, seed, fifo, none_output, max_rounds, alarm_s, report)      # reported by the run itself
+    prior = []
+    mutated = None
+    for ps in prior_seeds:
+        r0 = _run_once(spec, ws, ps, fifo, none_output, max_rounds, alarm_s, False, job=job, pre=pre)
+        prior.append(r0["outcome"])
+        if mutated is None:
+            fp1 = fingerprint_pre(pre)
+            if fp1 != fp0:
+                mutated = "after run 1: " + _fp_diff(fp0, fp1) if len(prior) == 1 else f"after run {len(prior)}: " + _fp_diff(fp0, fp1)
+    res = _run_once(spec, ws, seed, fifo, none_output, max_rounds, alarm_s, report, job=job, pre=pre)
+    if mutated is None:
+        fp1 = fingerprint_pre(pre)
+        if fp1 != fp0:
+            mutated = f"after run {len(prior) + 1}: " + _fp_diff(fp0, fp1)
+    if prior_seeds:
+        # edge_o is a defaultdict: the lookups of an earlier run leave EMPTY entries for datasets without consumers, which
+        # initialize() copies into purging_tracker; every reader uses .get / truthiness, for which an empty entry and no
+        # entry are the same - in a re-run the tracker is compared up to entries with an empty consumer set
+        res["trace"][0]["rerun"] = True
+    res["prior_seeds"] = list(prior_seeds)
+    res["prior_outcomes"] = prior
+    res["pre_mutated"] = mutated
+    return res
+
+
+def _run_once(spec, ws, seed, fifo, none_output=None, max_rounds=None, alarm_s=20, report=False, job=None, pre=None):
     """Returns dict(trace, viol, outcome, outputs, rounds, ...). `trace` is the op list for the Lean driver,
     each controller entry carrying the implementation's digest for comparison."""
     import cascade.controller.impl as impl
@@ -624,7 +786,8 @@ def run_case(spec, ws, seed, fifo, none_output=None, max_rounds=None, alarm_s=20
     import cascade.controller.act as cact
     import cascade.controller.notify as cnotify
 
-    job = build_job(spec)
+    pre_in = pre
+    job = job if job is not None else build_job(spec)
     rng = random.Random(seed)
     trace = [{"op": "init", "tasks": [{"nOut": t["nOut"], "gpu": t["gpu"], "inputs": inputs_of(t)} for t in spec["tasks"]],
               "ext": spec["ext"], "workers": ws}]
@@ -639,7 +802,12 @@ def run_case(spec, ws, seed, fifo, none_output=None, max_rounds=None, alarm_s=20
     def w_init(env, pre, outs):
         st = sapi.initialize(env, pre, outs)
         cur["state"] = st
-        trace[0]["comp"] = [st.ts2component[tname(i)] for i in range(len(spec["tasks"]))]
+        # component discovery: every task of the job belongs to a component (a State in which one does not is reported
+        # as a disagreement at init; the run goes on so that the oracles see what the real controller makes of it)
+        missing = [i for i in range(len(spec["tasks"])) if tname(i) not in st.ts2component]
+        if missing:
+            trace[0]["impl_init_problem"] = "State.ts2component has no entry for task(s) " + ",".join(tname(i) for i in missing)
+        trace[0]["comp"] = [st.ts2component.get(tname(i), 0) for i in range(len(spec["tasks"]))]
         trace[0]["ncomp"] = len(st.components)
         trace[0]["impl_sch"] = digest_sch(st)
         try:
@@ -672,9 +840,12 @@ def run_case(spec, ws, seed, fifo, none_output=None, max_rounds=None, alarm_s=20
             from cascade.scheduler.core import DatasetStatus
             cur["navail"] = {tuple(un_ds(ds)): sum(1 for st_ in state.ds2host[ds].values() if st_ == DatasetStatus.available)
                              for ds in state.edge_i[task] if ds in state.ds2host}
-        except Exception:
+        except Exception as e:
+            # the harness cannot read the scan order (a structure changed): the scan comparison would silently be off, so
+            # the round says so and compare() reports it as a broken correspondence
             cur["orders"] = []
             cur["navail"] = {}
+            cur["scan_unobservable"] = f"{type(e).__name__}: {e}"[:160]
         return o_build(worker, task, state)
 
     o_awc, o_mig, o_heur = sapi.assign_within_component, sapi.migrate_to_component, sassign._assignment_heuristic
@@ -714,7 +885,10 @@ def run_case(spec, ws, seed, fifo, none_output=None, max_rounds=None, alarm_s=20
                 "cands": [un_ds(p[0]) + [un_h(p[1])] for p in a.prep if p[1] != a.worker.host],
                 "orders": orders,
                 "prep": sorted(un_ds(p[0]) + [un_h(p[1])] for p in a.prep)} for (a, orders) in cur["asg"]]
+        if cur.get("scan_unobservable"):
+            br.note("scan_order_unobservable")
         trace.append({"op": "round", "asg": asg, "events": cur["events"], "mid": br.mid, "wantMid": br.observe_mid,
+                      "scanUnobservable": cur.pop("scan_unobservable", None),
                       "impl": dict(_observe(st, spec), cmds=br.cmds, afterAssign=cur.pop("implA", None), afterPlan=cur.pop("implP", None))})
         cur["asg"] = []
         cur["events"] = []
@@ -766,7 +940,7 @@ def run_case(spec, ws, seed, fifo, none_output=None, max_rounds=None, alarm_s=20
     if report:
         creport.get_context = lambda: _RCtx()
     try:
-        pre = precompute(job)
+        pre = pre_in if pre_in is not None else precompute(job)
         st = impl.run(job, br, pre, "tcp://gateway:1,job-7" if report else None)
         res["outputs"] = {tuple(un_ds(ds)): unwrap(v) for ds, v in st.outputs.items()}
         res["remaining"] = st.remaining
@@ -803,6 +977,7 @@ def run_case(spec, ws, seed, fifo, none_output=None, max_rounds=None, alarm_s=20
         res["reports"] = reps
     res["viol"] = br.viol
     res["shutdowns"] = br.shutdowns
+    res["dispatched"] = [br.dispatched.get(t, 0) for t in range(len(spec["tasks"]))]
     res["rounds"] = cur["rounds"]
     res["delivered"] = sorted(br.delivered)
     res["env"] = {"present": sorted([h, d[0], d[1], v] for h, m in br.present.items() for d, v in m.items()),
@@ -863,6 +1038,10 @@ def oracle(res, fifo):
     else:
         if res["remaining"] != 0:
             out.append(("C03", "finished-with-tasks-unrun", res["remaining"]))
+        # C02 "during a run each task of the job is sent for execution exactly once": counted at the Bridge API when run() returns
+        never = [t for t, k in enumerate(res.get("dispatched", [])) if k == 0]
+        if never:
+            out.append(("C02", "task-never-dispatched", never))
         ref = seq_eval(spec)
         for d in map(tuple, spec["ext"]):
             got = res["outputs"].get(d)
@@ -879,6 +1058,11 @@ def oracle(res, fifo):
         out.append(("C01", "run-did-not-return-requested-outputs", oc + (": " + str(res.get("exception"))[:200] if oc == "exception" else "")))
     if res["shutdowns"] != 1:
         out.append(("C03", "shutdown-count", res["shutdowns"]))
+    if res.get("pre_mutated"):
+        # run() changed the Preschedule it was given (an input: the caller may run the job again with it, and every theorem
+        # of C01-C04 is about a run that starts from what precompute returned)
+        for p in ("C01", "C02", "C03", "C04"):
+            out.append((p, "preschedule-mutated", res["pre_mutated"]))
     if res.get("report"):
         # the caller of a gateway-driven run gets its results through the reporter: every requested output exactly once,
         # with the value of sequential evaluation; one progress report per completed task; the last report says Shutdown
@@ -944,7 +1128,7 @@ def cmd_groups(cmds):
 def model_lines(trace):
     lines = []
     for x in trace:
-        y = {k: v for k, v in x.items() if k not in ("impl", "final", "impl_sch", "impl_ctl")}
+        y = {k: v for k, v in x.items() if k not in ("impl", "final", "impl_sch", "impl_ctl", "impl_init_problem", "scanUnobservable", "rerun")}
         lines.append(json.dumps(y))
     return lines
 
@@ -967,7 +1151,16 @@ def soft_notes(model_out):
     return n
 
 
-def _diff_ctl(mc, ic):
+def _loose_ptrack(d):
+    if isinstance(d, dict) and "ptrack" in d:
+        d = dict(d)
+        d["ptrack"] = [e for e in d["ptrack"] if e[1]]
+    return d
+
+
+def _diff_ctl(mc, ic, loose=False):
+    if loose:
+        mc, ic = _loose_ptrack(mc), _loose_ptrack(ic)
     for k in ic:
         if k in mc and mc[k] != ic[k]:
             return k, mc[k], ic[k]
@@ -976,14 +1169,57 @@ def _diff_ctl(mc, ic):
     return None
 
 
-def compare(trace, model_out):
-    """first disagreement between the implementation's trace and the model's replay, or None"""
+def _drop_output(d, skip):
+    if skip is not None and isinstance(d, dict) and "outputs" in d:
+        d = dict(d)
+        d["outputs"] = [e for e in d["outputs"] if list(e[:2]) != list(skip)]
+    return d
+
+
+def compare(trace, model_out, skip_output=None):
+    """first disagreement between the implementation's trace and the model's replay, or None. `skip_output`: a requested
+    output whose VALUE is None in this run (the model's values are terms, never None): its entry of State.outputs is left out
+    of the comparison, everything else is compared as usual"""
+    if skip_output is not None:
+        trace = [dict(x, impl=dict(x["impl"], ctl=_drop_output(x["impl"]["ctl"], skip_output),
+                                   **{k: (dict(x["impl"][k], ctl=_drop_output(x["impl"][k].get("ctl"), skip_output)) if isinstance(x["impl"].get(k), dict) and "ctl" in x["impl"][k] else x["impl"].get(k))
+                                      for k in ("afterAssign", "afterPlan") if k in x["impl"]}))
+                 if isinstance(x.get("impl"), dict) and isinstance(x["impl"].get("ctl"), dict) else x for x in trace]
+        if trace and isinstance(trace[0].get("impl_ctl"), dict):
+            trace = [dict(trace[0], impl_ctl=_drop_output(trace[0]["impl_ctl"], skip_output))] + trace[1:]
+        fixed = []
+        for mo in model_out:
+            try:
+                m = json.loads(mo)
+            except Exception:
+                fixed.append(mo); continue
+            if isinstance(m, dict):
+                for k in ("ctl", "ctlA", "ctlP"):
+                    if isinstance(m.get(k), dict):
+                        m[k] = _drop_output(m[k], skip_output)
+                mo = json.dumps(m)
+            fixed.append(mo)
+        model_out = fixed
+    loose = bool(trace and trace[0].get("rerun"))
     if len(model_out) != len(trace):
         return {"at": min(len(model_out), len(trace)), "op": "replay-length", "model": f"{len(model_out)} answers", "impl": f"{len(trace)} trace entries"}
     for i, (x, mo) in enumerate(zip(trace, model_out)):
         m = json.loads(mo)
         op = x["op"]
         if op == "init":
+            if "impl_init_problem" in x:
+                return {"at": i, "op": "init", "field": "components", "model": "every task belongs to a component", "impl": x["impl_init_problem"]}
+            # the hypotheses of the theorems, decided by the driver on THIS input (wfCheck/wfcCheck/feasCheck with soundness
+            # lemmas in Lemmas/CtrlWFCheck.lean; wfc is about the component map the real initialize() produced): an input
+            # outside them is a failure of the harness (its generator), reported as a broken correspondence
+            if isinstance(m, dict):
+                if m.get("compEq") is False:
+                    return {"at": i, "op": "init", "field": "components-of-precompute", "model": "preComps (C16's model of precompute on this job) groups the tasks differently",
+                            "impl": {"comp": x.get("comp"), "ncomp": x.get("ncomp")}}
+                for hyp in ("wf", "wfc", "feasible"):
+                    if m.get(hyp) is not True:
+                        return {"at": i, "op": "init", "field": "hypothesis-" + hyp, "model": f"{hyp}:{m.get(hyp)} - the replayed input is outside the hypotheses of the theorems",
+                                "impl": {"tasks": x.get("tasks"), "workers": x.get("workers"), "comp": x.get("comp"), "ncomp": x.get("ncomp")}}
             # the scheduler bookkeeping as initialize() leaves it (extended model only)
             if isinstance(m, dict) and "sch" in m and "impl_sch" in x:
                 ms, isch = canon_model_sch(m["sch"]), x["impl_sch"]
@@ -991,7 +1227,7 @@ def compare(trace, model_out):
                     if ms[k] != isch[k]:
                         return {"at": i, "op": "init", "field": "sch." + k, "model": ms[k], "impl": isch[k]}
             if isinstance(m, dict) and "ctl" in m and "impl_ctl" in x:
-                d = _diff_ctl(canon_model_ctl(m["ctl"]), x["impl_ctl"])
+                d = _diff_ctl(canon_model_ctl(m["ctl"]), x["impl_ctl"], loose)
                 if d:
                     return {"at": i, "op": "init", "field": d[0], "model": d[1], "impl": d[2]}
             continue
@@ -1020,6 +1256,8 @@ def compare(trace, model_out):
             return {"at": i, "op": op, "model": "loop exit", "impl": "loop continues"}
         mc = canon_model_ctl(m["ctl"])
         ic = impl.get("ctl")
+        if loose:
+            mc, ic = _loose_ptrack(mc), _loose_ptrack(ic)
         if ic is not None:
             for k in ic:
                 if k in mc and mc[k] != ic[k]:
@@ -1038,6 +1276,9 @@ def compare(trace, model_out):
         if op == "round" and "sch" not in m and hard_notes(m.get("notes")):
             return {"at": i, "op": {kk: v for kk, v in x.items() if kk not in ("impl",)}, "field": "round-replay", "model": m["notes"], "impl": "performed"}
         if op == "round":
+            if x.get("scanUnobservable"):
+                return {"at": i, "op": "round", "field": "scan-order", "model": "iteration order of ds2host[ds] in build_assignment observed",
+                        "impl": "not readable by the harness: " + x["scanUnobservable"]}
             if sorted(m.get("cmds", [])) != sorted(impl.get("cmds", [])):
                 return {"at": i, "op": {kk: v for kk, v in x.items() if kk != "impl"}, "field": "cmds", "model": sorted(m.get("cmds", [])), "impl": sorted(impl.get("cmds", []))}
             if cmd_groups(m.get("cmds", [])) != cmd_groups(impl.get("cmds", [])):
@@ -1049,7 +1290,7 @@ def compare(trace, model_out):
                     continue
                 if "unobservable" in io:
                     return {"at": i, "op": op, "field": "State " + key, "model": "state abstraction defined", "impl": io["unobservable"]}
-                d = _diff_ctl(canon_model_ctl(m[mkey]), io.get("ctl", {}))
+                d = _diff_ctl(canon_model_ctl(m[mkey]), io.get("ctl", {}), loose)
                 if d:
                     return {"at": i, "op": {kk: v for kk, v in x.items() if kk != "impl"}, "field": key + "." + d[0], "model": d[1], "impl": d[2]}
             for a in x["asg"]:
